@@ -45,6 +45,7 @@ class Engine(ExprMixin, CallMixin, StmtMixin):
         self.ctx_hooks = {}
         self.store_monitors = {}
         self.coerce_hooks = {}
+        self.opaque_defs = {}
         self.arg_hooks = {}
         self.exc_names = {}
         self.axioms = []
@@ -82,7 +83,9 @@ class Engine(ExprMixin, CallMixin, StmtMixin):
         monitors = kw.pop("item_monitors", None)
         ghost_exit = kw.pop("ghost_exit", ())
         log_events = kw.pop("log_events", None)
+        cuts = kw.pop("cuts", ())
         c = Contract(key, **kw)
+        c.cuts = list(cuts)
         c.ghost_exit = list(ghost_exit)
         c.log_events = log_events
         c.item_monitors = monitors or {}
@@ -141,22 +144,34 @@ class Engine(ExprMixin, CallMixin, StmtMixin):
 
         return deco
 
+    def opaque(self, name, fdecl, ret_ty, definition):
+        """spec function that is an uninterpreted symbol in ordinary obligations and is replaced by its
+        definition only where a cut `reveal`s it (keeps string definitions out of quantified queries)"""
+        def f(e, st, *args):
+            if name in st.meta.get("reveal", ()):
+                return V(ret_ty, definition(*[a.z for a in args]))
+            return V(ret_ty, fdecl(*[a.z for a in args]))
+        self.vocab[name] = f
+        self.opaque_defs[name] = (fdecl, definition)
+
     def axiom(self, group, z):
         self.axiom_groups[group].append(z)
 
     # ------------------------------------------------------------------ obligations
-    def emit(self, kind, label, node, st, goal, note="", serves=None, expect="unsat"):
+    def emit(self, kind, label, node, st, goal, note="", serves=None, expect="unsat", uses=None):
         c = self.current
         line = lineno(node) if node is not None else 0
         oid = f"{c.key}:{kind}:{label}@L{line}"
         sv = tuple(serves) if serves else c.serves
         ob = Obligation(oid, kind, label, line, st.pc, goal, c.key, serves=sv, expect=expect, note=note)
+        ob.uses = tuple(uses) if uses is not None else None
         self.obligations.append(ob)
         return ob
 
-    def axioms_for(self, c):
+    def axioms_for(self, c, ob=None):
         out = list(self.axioms)
-        for g in getattr(c, "uses", ()):
+        groups = ob.uses if ob is not None and getattr(ob, "uses", None) is not None else getattr(c, "uses", ())
+        for g in groups:
             if g not in self.axiom_groups:
                 raise SpecError(f"{c.key}: unknown axiom group {g}")
             out.extend(self.axiom_groups[g])
@@ -221,6 +236,35 @@ class Engine(ExprMixin, CallMixin, StmtMixin):
                 raise SpecError(f"{c.key}: contract gives an invariant for loop {li} but the function has "
                                 f"{len(self.loop_ordinal)} loops")
         self.loop_counter = 0
+        # sidecar cut points: (statement kind, ordinal in source order) -> cut
+        self.cut_at = {}
+        if getattr(c, "cuts", None):
+            counts = {}
+            for sub in ast.walk(node):
+                if isinstance(sub, ast.stmt) and sub is not node:
+                    pass
+            order = []
+
+            def walk(stmts):
+                for s_ in stmts:
+                    if isinstance(s_, (ast.FunctionDef, ast.AsyncFunctionDef, ast.ClassDef)):
+                        continue
+                    order.append(s_)
+                    for fld in ("body", "orelse", "finalbody"):
+                        walk(getattr(s_, fld, []) or [])
+                    for h in getattr(s_, "handlers", []) or []:
+                        walk(h.body)
+
+            walk(node.body)
+            for s_ in order:
+                kname = type(s_).__name__
+                counts[kname] = counts.get(kname, 0) + 1
+                for cut in c.cuts:
+                    if tuple(cut["at"]) == (kname, counts[kname]):
+                        self.cut_at[id(s_)] = cut
+            for cut in c.cuts:
+                if not any(v is cut for v in self.cut_at.values()):
+                    raise SpecError(f"{c.key}: cut point {cut['at']} does not exist in the function")
         is_async = isinstance(node, ast.AsyncFunctionDef)
         st = self.init_state(c, node)
         entry = st
@@ -414,7 +458,7 @@ class Engine(ExprMixin, CallMixin, StmtMixin):
             # the goal is literally one of the hypotheses (up to renaming of bound variables)
             ob.result = {"status": "unsat", "time": 0.0, "backend": "syntactic"}
             return ob.result
-        for a in self.axioms_for(c):
+        for a in self.axioms_for(c, ob):
             s.add(a)
         s.add(*ob.pc)
         s.add(z3.Not(ob.goal))
